@@ -117,7 +117,12 @@ def generate(ctx):
                     if ok:
                         for x, w in zip(a, want_args[key]):
                             run.oblige("helper-call.%s.argument" % key, loops.scalar_eq(x.at(0), w) & (x.axes[0].size == 1), kind="call-pre")
-                run.oblige("helpers-each-called-once", SBool(sorted(k for k, _ in calls) == sorted(want_args)), kind="post")
+                # structural premise: the specification is stated over the results of the helpers it needs (phi_c, psi_m, m, n;
+                # phi_m enters only through _mParam), so the path must obtain those from the helpers.  A dead call removed
+                # (phi_m = _phiM(...) is never used by the footprint) or a result reused is not a violation.
+                called = {k for k, _ in calls}
+                run.oblige("helpers-the-specification-needs-are-called", SBool({"phi_c", "psi_m", "m", "n"} <= called and called <= set(want_args)),
+                           kind="post", meta={"structural": True})
                 p = spec_params(num(zm), z0, ws, ust, L, helpers=H)
                 j, i = sym.fresh_int("j"), sym.fresh_int("i")
                 rng = [(j >= 0) & (j < ffm.axes[0].size) & (i >= 0) & (i < ffm.axes[1].size)]
